@@ -6,6 +6,8 @@
 (*   Decode    tlb.Unmarshal / Decoder.Unmarshal of one cell tree into one type *)
 (*   TlDecode  UnmarshalTL / tl.Unmarshal of one byte string into one TL type   *)
 (*   Helper    one call of a helper that sits on network / chain data           *)
+(*   Tuple     a spec-built TVM tuple (VmTuple_Gen) through the decoders that can  *)
+(*             meet one                                                          *)
 (*   Bag       a spec-written bag the library's reader did not turn into one    *)
 (*             root (refused, no root, several roots): only the return matters  *)
 (* Panic, Timeout, Crash and anything else have no action.                      *)
@@ -103,12 +105,23 @@ JudgeHelper(e) ==
            <<"time",  Capped(e) \/ e.ms <= TimeBudgetMs(HelperSize(e))>>,
            <<"value", Rel(e) /\ ErrAnswer(e)>> >>)
 
+\* Tuple: a vector of VmTuple_Gen (spec-built encodings of a type the library cannot encode) decoded as a
+\* VmStackValue, as the only entry of a VmStack, or through VmStack.UnmarshalTL. Well-formed vectors must decode, and to
+\* exactly the entries the specification built them from (vals: the value as text, entries in schema order);
+\* ill-formed neighbours are free to be refused or read, but like every call they must return within budget.
+JudgeTuple(e) ==
+  LET size == TreeSize(e.cells, e.bits) IN
+  First(<< <<"alloc", e.alloc_kb <= AllocBudgetKb(size)>>,
+           <<"time",  e.ms <= TimeBudgetMs(size)>>,
+           <<"value", e.wf => (e.res = "ok" /\ e.got = e.vals)>> >>)
+
 JudgeBag(e) == First(<< <<"alloc", e.alloc_kb <= AllocBudgetKb(e.size)>>, <<"time", e.ms <= TimeBudgetMs(e.size)>> >>)
 
 Judge(e) == CASE e.k = "Decode"   -> JudgeDecode(e)
               [] e.k = "TlDecode" -> JudgeTl(e)
               [] e.k = "Helper"   -> JudgeHelper(e)
               [] e.k = "Bag"      -> JudgeBag(e)
+              [] e.k = "Tuple"    -> JudgeTuple(e)
               [] OTHER -> FALSE          \* Panic, Timeout, Crash: not steps of the specification
 
 Init == l \in 1..N /\ v = "todo"
